@@ -2,6 +2,7 @@ package props
 
 import (
 	"math/rand"
+	"strings"
 
 	"verifharness/hist"
 )
@@ -19,6 +20,84 @@ type SetupOpts struct {
 	NoLocal   bool
 	HintPool  []string // names for ImportName/ImportAlias; default namePool
 	ManyHints int      // extra unused hints
+	// BlankHints: about a quarter of the ManyHints entries are hints NAMED "_" (ImportName(p, "_")
+	// or ImportAlias(p, "_")) - for paths nothing references, so they must never produce an import.
+	BlankHints bool
+}
+
+// Header / package comment texts.  Beyond plain ones: texts gofmt ALTERS (trailing blanks or
+// a tab: gofmt trims them; a `+build` line as header: gofmt adds the matching //go:build line
+// above it) and borderline ones (multi-line text, text ending in a newline, raw forms).  The
+// `+build` text is a HEADER text only: as a trailing comment of a statement it is the recorded
+// finding gofmt-hoists-plus-build-comment.
+var headerPool = []string{"Code generated. DO NOT EDIT.", "two\nlines", "//go:build x",
+	"trailing blanks  ", "trailing tab\t", "+build linux,amd64", "one\ntwo  \n\tthree\nfour", "ends in a newline\n", "/* x */", "//  raw with blanks  ", "/* raw\n   block */"}
+var pkgCommentPool = []string{"Package p does things.", "multi\nline doc",
+	"Package p trails.  ", "Package p tabs.\t", "Package p\n\nhas paragraphs  \nand more\n", "Package p ends in a newline.\n", "/* Package p raw. */", "//Package p raw line"}
+
+// commentShape names the shape of a header / package comment text (for the tags).
+func commentShape(t string) string {
+	switch {
+	case strings.HasPrefix(t, "+build"):
+		return "plus-build"
+	case strings.HasPrefix(t, "/*"):
+		return "raw-block"
+	case strings.HasPrefix(t, "//"):
+		return "raw-line"
+	case strings.HasSuffix(t, "\n"):
+		return "ends-in-newline"
+	case strings.HasSuffix(t, " ") || strings.HasSuffix(t, "\t"):
+		return "trailing-blank"
+	case strings.Contains(t, "\n"):
+		return "multi-line"
+	}
+	return "plain"
+}
+
+// SetupTags are the feature tags of a setup drawn by FileSetup (or of any history):
+//
+//	header=<shape> pkgcomment=<shape>  shape of every header / package comment text
+//	header-twice                         two HeaderComment calls
+//	hint-repeated                        one path is given two hints with the SAME name (ImportAlias(p, ".")
+//	                                     twice or three times, ImportAlias(p, "x") twice, ImportName(p, "n") then
+//	                                     ImportAlias(p, "n"), ImportAlias then ImportName): the last hint wins and
+//	                                     repeating a hint changes nothing
+//	hint-repeated=dot                    ... and the repeated name is the dot
+func SetupTags(h hist.History) []string {
+	set := map[string]bool{}
+	nheader := 0
+	seen := map[[2]string]bool{} // (path, name) of the hints so far
+	hint := func(p, n string) {
+		if strings.HasPrefix(p, "unused.host/") {
+			return // filler entries of the large hint tables (their paths repeat beyond 260 entries)
+		}
+		if seen[[2]string{p, n}] {
+			set["hint-repeated"] = true
+			if n == "." {
+				set["hint-repeated=dot"] = true
+			}
+		}
+		seen[[2]string{p, n}] = true
+	}
+	for _, op := range h {
+		switch op.Kind {
+		case "header":
+			nheader++
+			set["header="+commentShape(op.A)] = true
+		case "pkgcomment":
+			set["pkgcomment="+commentShape(op.A)] = true
+		case "importname", "importalias":
+			hint(op.A, op.B)
+		case "importnames":
+			for _, p := range op.Pairs {
+				hint(p[0], p[1])
+			}
+		}
+	}
+	if nheader >= 2 {
+		set["header-twice"] = true
+	}
+	return sortedKeys(set)
 }
 
 func FileSetup(r *rand.Rand, f int, o SetupOpts) (h hist.History, local string) {
@@ -77,8 +156,47 @@ func FileSetup(r *rand.Rand, f int, o SetupOpts) (h hist.History, local string) 
 			hints = append(hints, hist.Op{Kind: "importnames", F: f, Pairs: pairs})
 		}
 	}
+	// repeated hints (1 case in 6): the same path is given the same name twice (or, for the
+	// dot, three times), through the same or the other kind of hint; the repetitions are placed
+	// at random (increasing) positions among the other hints
+	if len(o.Paths) > 0 && r.Intn(6) == 0 {
+		p := pick(r, o.Paths)
+		n := pick(r, names)
+		var rep hist.History
+		k := r.Intn(5)
+		if o.NoDot && k == 0 {
+			k = 1
+		}
+		switch k {
+		case 0: // ImportAlias(p, ".") twice or three times
+			for j := 2 + r.Intn(2); j > 0; j-- {
+				rep = append(rep, hist.Op{Kind: "importalias", F: f, A: p, B: "."})
+			}
+		case 1: // ImportAlias(p, "x") twice
+			rep = hist.History{{Kind: "importalias", F: f, A: p, B: n}, {Kind: "importalias", F: f, A: p, B: n}}
+		case 2: // ImportName(p, "n") then ImportAlias(p, "n")
+			rep = hist.History{{Kind: "importname", F: f, A: p, B: n}, {Kind: "importalias", F: f, A: p, B: n}}
+		case 3: // ImportAlias(p, "n") then ImportName(p, "n")
+			rep = hist.History{{Kind: "importalias", F: f, A: p, B: n}, {Kind: "importname", F: f, A: p, B: n}}
+		default: // ImportName(p, "n") twice, the second time through ImportNames
+			rep = hist.History{{Kind: "importname", F: f, A: p, B: n}, {Kind: "importnames", F: f, Pairs: [][2]string{{p, n}}}}
+		}
+		at := 0
+		for _, op := range rep {
+			at += r.Intn(len(hints) - at + 1)
+			hints = append(hints[:at:at], append(hist.History{op}, hints[at:]...)...)
+			at++
+		}
+	}
 	for i := 0; i < o.ManyHints; i++ {
-		hints = append(hints, hist.Op{Kind: "importname", F: f, A: "unused.host/p" + string(rune('a'+i%26)) + string(rune('0'+i/26%10)), B: pick(r, names)})
+		op := hist.Op{Kind: "importname", F: f, A: "unused.host/p" + string(rune('a'+i%26)) + string(rune('0'+i/26%10)), B: pick(r, names)}
+		if o.BlankHints && r.Intn(4) == 0 {
+			op.B = "_"
+			if r.Intn(2) == 0 {
+				op.Kind = "importalias"
+			}
+		}
+		hints = append(hints, op)
 	}
 	// anonymous imports: none (1/2), one op (3/10) or two ops (2/10) of 1..2 paths each; a
 	// path is drawn half of the time from o.Paths (the paths the hints name and the body
@@ -151,11 +269,14 @@ func FileSetup(r *rand.Rand, f int, o SetupOpts) (h hist.History, local string) 
 	if !o.NoCgo && r.Intn(12) == 0 {
 		h = append(h, hist.Op{Kind: "cgo", F: f, A: pick(r, []string{"#include <stdio.h>", "#include <a.h>\n#include <b.h>", "// raw form"})})
 	}
-	if r.Intn(8) == 0 {
-		h = append(h, hist.Op{Kind: "header", F: f, A: pick(r, []string{"Code generated. DO NOT EDIT.", "two\nlines", "//go:build x"})})
+	if r.Intn(6) == 0 {
+		h = append(h, hist.Op{Kind: "header", F: f, A: pick(r, headerPool)})
+		if r.Intn(4) == 0 { // a second HeaderComment call
+			h = append(h, hist.Op{Kind: "header", F: f, A: pick(r, headerPool)})
+		}
 	}
-	if r.Intn(8) == 0 {
-		h = append(h, hist.Op{Kind: "pkgcomment", F: f, A: pick(r, []string{"Package p does things.", "multi\nline doc"})})
+	if r.Intn(6) == 0 {
+		h = append(h, hist.Op{Kind: "pkgcomment", F: f, A: pick(r, pkgCommentPool)})
 	}
 	if r.Intn(12) == 0 {
 		h = append(h, hist.Op{Kind: "canonical", F: f, A: pick(r, []string{"example.com/p", "a.b/\"q\"", "x/世界"})})
